@@ -11,3 +11,5 @@ register_simp_attr lexc_pred
 register_simp_attr lexc_cls
 /-- `lexc_ref`: the refinement theorems of the functions already proved (used instead of unfolding a callee) -/
 register_simp_attr lexc_ref
+/-- `lexc_code`: numeric values of the hand model's token types (enum constants of the C header) -/
+register_simp_attr lexc_code
